@@ -143,6 +143,29 @@ impl SecondaryStorage {
             }
         }
 
+        if !options.disable_all_disk_operation {
+            // vacuum unused DVs. A DV file that is not in the manifest is left over from a
+            // crashed transaction or from a compacted RowSet; its id will be issued again.
+            let mut dir = fs::read_dir(options.path.join("dv")).await?;
+            while let Some(entry) = dir.next_entry().await? {
+                let file_name = entry.file_name();
+                let Some(name) = file_name.to_str().and_then(|x| x.strip_suffix(".dv")) else {
+                    continue;
+                };
+                let ids = name.split('_').collect::<Vec<_>>();
+                if let [table_id, rowset_id, dv_id] = ids[..]
+                    && let (Ok(table_id), Ok(rowset_id), Ok(dv_id)) = (
+                        table_id.parse::<u32>(),
+                        rowset_id.parse::<u32>(),
+                        dv_id.parse::<u64>(),
+                    )
+                    && !dvs_to_open.contains_key(&(table_id, rowset_id, dv_id))
+                {
+                    fs::remove_file(entry.path()).await?;
+                }
+            }
+        }
+
         // TODO: parallel open
 
         let tables = engine.tables.read().clone();
